@@ -157,6 +157,19 @@ def _orders_case(k, rng):
                 counters["second_name_rejected_default"] = counters.get("second_name_rejected_default", 0) + 1
             except Exception as e:  # noqa: BLE001
                 failures.append(C.fail(None, "a second name (first equal to the default) raised %s instead of ValueError" % type(e).__name__, **wit))
+    # an empty (falsy) first name is a name as well
+    for first in ("", " ", "0"):
+        for how, mk in (("named", lambda: named(first, _underlying(kind))), ("cached(named)", lambda: cached(named(first, _underlying(kind)))), ("serializable(named)", lambda: serializable(named(first, _underlying(kind))))):
+            try:
+                w_ = mk()
+                if w_.name != first:
+                    failures.append(C.fail(None, "%s with the name %r gives a wrapper named %r" % (how, first, w_.name), **wit))
+                named("other", w_)
+                failures.append(C.fail(None, "a second name was accepted after %s with the first name %r" % (how, first), **wit))
+            except ValueError:
+                counters["second_name_rejected_falsy_first"] = counters.get("second_name_rejected_falsy_first", 0) + 1
+            except Exception as e:  # noqa: BLE001
+                failures.append(C.fail(None, "a second name (first %r) raised %s instead of ValueError" % (first, type(e).__name__), **wit))
     # idempotence
     f = cached(_underlying(kind))
     if cached(f) is not f or serializable(f) is not f:
@@ -344,17 +357,24 @@ def _shadow_case(k, rng):
 # (3) string expressions
 
 
-def _gen_expr(rng, depth, vector, fields):
-    """(string form, python form over record d) of a random expression."""
+def _gen_expr(rng, depth, vector, fields, nested=False):
+    """(string form, python form over record d) of a random expression.  nested: also generator expressions and
+    lambdas whose bodies use record fields (a nested scope resolves them as globals of the evaluation)."""
     if depth <= 0 or rng.random() < 0.25:
         if rng.random() < 0.6:
             f = rng.choice(fields)
             return f, "d['%s']" % f
         lit = rng.choice(["1", "2.5", "0.5", "3", "10"])
         return lit, lit
-    kind = rng.choice(["bin", "bin", "bin", "div", "neg", "fn", "cmp"] + ([] if vector else ["bool", "not", "mathfn"]))
-    a, pa = _gen_expr(rng, depth - 1, vector, fields)
-    b, pb = _gen_expr(rng, depth - 1, vector, fields)
+    kind = rng.choice(["bin", "bin", "bin", "div", "neg", "fn", "cmp"] + ([] if vector else ["bool", "not", "mathfn"]) + (["genexp", "lam", "listcomp"] if nested else []))
+    a, pa = _gen_expr(rng, depth - 1, vector, fields, nested)
+    b, pb = _gen_expr(rng, depth - 1, vector, fields, nested)
+    if kind == "genexp":
+        return "sum(%s * k_ for k_ in range(1, 4))" % a, "sum(%s * k_ for k_ in range(1, 4))" % pa
+    if kind == "listcomp":
+        return "max([%s - k_ for k_ in (0, 1) if k_ <= abs(%s)])" % (a, b), "max([%s - k_ for k_ in (0, 1) if k_ <= abs(%s)])" % (pa, pb)
+    if kind == "lam":
+        return "(lambda s_: s_ + %s)(%s)" % (a, b), "(lambda s_: s_ + %s)(%s)" % (pa, pb)
     if kind == "bin":
         op = rng.choice(["+", "-", "*"])
         return "(%s %s %s)" % (a, op, b), "(%s %s %s)" % (pa, op, pb)
@@ -397,9 +417,11 @@ def _expr_case(k, rng, tier):
     rep = ("dict", "attr", "scalar", "vector")[k % 4]
     fields = ["x"] if rep == "scalar" else ["x", "y", "z"]
     vector = rep == "vector"
-    sexpr, pexpr = _gen_expr(rng, rng.randint(1, 4), vector, fields)
+    sexpr, pexpr = _gen_expr(rng, rng.randint(1, 4), vector, fields, nested=rep in ("dict", "attr") and (k // 4) % 3 == 0)
     failures = []
     counters = {"expr_cases": 1, "expr_rep:" + rep: 1}
+    if "k_" in sexpr or "s_" in sexpr:
+        counters["expr_with_nested_scope"] = 1
     wit = {"expression": sexpr, "python": "lambda d: " + pexpr, "representation": rep}
     rename = {}
     if rep in ("dict", "attr") and rng.random() < 0.35:
